@@ -139,6 +139,8 @@ class ChecksumServiceContext {
       builtin<Buffer, T>(r, "SUMI32", 4, true);
       builtin<Buffer, T>(r, "SUMI64", 8, true);
       builtin<Buffer, T>(r, "CRC32", 4, false);
+      builtin<Buffer, T>(r, "SumU32Mx", 4, false);
+      builtin<Buffer, T>(r, "sumu16lc", 2, false);
       return r;
     }();
     return m;
